@@ -227,7 +227,9 @@ def reference(lines, kinds):
         try:
             if len(rt) == 1 and rt[0][0] == "name" and not isinstance(env[rt[0][1]], float):
                 v = env[rt[0][1]]                    # a copy / bare use of an opaque value
-                res = ("same", v[1])
+                # ("unknown": bound by arithmetic on opaque values, which may or may not have evaluated - the name
+                #  then holds either that result or its previous value; nothing is claimed about later uses)
+                res = ("same", v[1]) if v[0] == "opaque" else ("skip",)
             else:
                 v = evaluate(rt, env)
                 res = ("num", v)
